@@ -597,3 +597,14 @@ PLANS["C12"] = dict(
              validate=dict(module="Trace_EntryPoints", cfg=trace_cfg(consts=['Mode = "bytes"']), recheck=False)),
     ],
 )
+
+# ------------------------------------------------------------------ growth modules (beyond the listed properties; not in MANIFEST.json)
+PLANS["X01"] = dict(
+    level_text="growth: config.SigningKeys as a state machine", level_note="not a listed property", rule="all operation histories of depth 3", exhaustive=True,
+    phases=[dict(
+        name="signingkeys",
+        gen=dict(module="MC_SigningKeys", cfg=lambda tier, seed: mc_cfg(["Inv_Valid", "Inv_NoEffect", "Inv_Emit"], consts=["Depth = 3"]), select=slicer(20000)),
+        drive=dict(driver="signingkeys"),
+        validate=dict(module="Trace_SigningKeys", cfg=trace_cfg()),
+    )],
+)
